@@ -114,9 +114,10 @@ enum Op {
     /// Convert straight to the builder of another section: forwards (skipped
     /// sections stay empty) or backwards (that section's items stay, all
     /// later ones are dropped).
-    Goto(u8),
+    /// (The flag: through the `From` implementations instead of the methods.)
+    Goto(u8, bool),
     /// Back to the plain message builder (everything dropped), then on.
-    ToBuilder,
+    ToBuilder(bool),
     /// Push one TXT record at the root sized so that the message would be
     /// exactly this many octets long (the 65535-octet boundary; in front of
     /// the 0x4000 pointer limit).
@@ -129,7 +130,7 @@ enum Op {
     ClearLimit,
     /// OPT with this payload size and raw options (code, length).
     /// (UDP size, options as (code, length), OPT header settings in order)
-    Opt(u16, Vec<(u16, usize)>, Vec<HdrSet>),
+    Opt(u16, Vec<(u16, usize)>, Vec<HdrSet>, bool),
     /// The sink gets more room (as after the caller grew the buffer).
     Heal(usize),
     /// The same small record pushed this many times in a row (an unbounded
@@ -161,6 +162,25 @@ fn names() -> Vec<String> {
         format!("{l}.{l}.{l}.{s}.example.com.", l = long_label, s = "s".repeat(49)),
         format!("x.{l}.{l}.{l}.{s}.example.com.", l = long_label, s = "s".repeat(47)),
     ]
+    .into_iter()
+    .chain(ladder())
+    .collect()
+}
+
+/// How many names at the end of the pool form the ladder.
+const LADDER: usize = 26;
+
+/// `r0.`, `r1.r0.`, `r2.r1.r0.`, ...: each name is the one before with a
+/// label in front. Pushed in this order a compressor writes each of them as
+/// one label and a pointer to the previous name, which ends in a pointer
+/// itself: a reader of the last name follows a pointer per rung.
+fn ladder() -> Vec<String> {
+    let mut out: Vec<String> = Vec::new();
+    for k in 0..LADDER {
+        let prev = out.last().cloned().unwrap_or_default();
+        out.push(format!("r{}.{}", k, prev));
+    }
+    out
 }
 
 fn nm(pool: &[String], i: usize) -> Name<Vec<u8>> {
@@ -298,7 +318,25 @@ impl<T: Composer> Stage<T> {
             other => other,
         }
     }
-    fn goto(self, to: u8) -> Self {
+    fn goto(self, to: u8, via_trait: bool) -> Self {
+        if via_trait {
+            // Generic code converts with `From`/`Into`.
+            return match (self, to) {
+                (Stage::Q(b), 1) => Stage::An(b.into()),
+                (Stage::Q(b), 2) => Stage::Au(b.into()),
+                (Stage::Q(b), 3) => Stage::Ad(b.into()),
+                (Stage::An(b), 0) => Stage::Q(b.into()),
+                (Stage::An(b), 2) => Stage::Au(b.into()),
+                (Stage::An(b), 3) => Stage::Ad(b.into()),
+                (Stage::Au(b), 0) => Stage::Q(b.into()),
+                (Stage::Au(b), 1) => Stage::An(b.into()),
+                (Stage::Au(b), 3) => Stage::Ad(b.into()),
+                (Stage::Ad(b), 0) => Stage::Q(b.into()),
+                (Stage::Ad(b), 1) => Stage::An(b.into()),
+                (Stage::Ad(b), 2) => Stage::Au(b.into()),
+                (other, _) => other,
+            };
+        }
         match (self, to) {
             (Stage::Q(b), 1) => Stage::An(b.answer()),
             (Stage::Q(b), 2) => Stage::Au(b.authority()),
@@ -320,7 +358,16 @@ impl<T: Composer> Stage<T> {
             (other, _) => other,
         }
     }
-    fn to_builder(self) -> Self {
+    fn to_builder(self, via_trait: bool) -> Self {
+        if via_trait {
+            return match self {
+                Stage::Q(b) => Stage::Q(MessageBuilder::from(b).into()),
+                Stage::An(b) => Stage::Q(MessageBuilder::from(b).into()),
+                Stage::Au(b) => Stage::Q(MessageBuilder::from(b).into()),
+                Stage::Ad(b) => Stage::Q(MessageBuilder::from(b).into()),
+                Stage::Gone => Stage::Gone,
+            };
+        }
         match self {
             Stage::Q(b) => Stage::Q(b.builder().question()),
             Stage::An(b) => Stage::Q(b.builder().question()),
@@ -620,18 +667,18 @@ fn execute<T: Composer>(pool: &[String], ops: &[Op], ctl: &SinkCtl, stream: bool
                 let s = std::mem::replace(&mut st, Stage::Gone);
                 st = s.next();
             }
-            Op::Goto(to) => {
+            Op::Goto(to, via_trait) => {
                 let s = std::mem::replace(&mut st, Stage::Gone);
-                st = s.goto(*to);
+                st = s.goto(*to, *via_trait);
                 model.items.retain(|(s, _)| *s <= *to);
                 if *to < 3 {
                     model.opt = None;
                 }
                 sim::stat("probe.section_conversion");
             }
-            Op::ToBuilder => {
+            Op::ToBuilder(via_trait) => {
                 let s = std::mem::replace(&mut st, Stage::Gone);
-                st = s.to_builder();
+                st = s.to_builder(*via_trait);
                 model.items.clear();
                 model.opt = None;
             }
@@ -688,13 +735,52 @@ fn execute<T: Composer>(pool: &[String], ops: &[Op], ctl: &SinkCtl, stream: bool
                 model.flags = *f;
                 sim::stat("probe.header_flags_set");
             }
-            Op::Opt(size, opts, hdr) => {
+            Op::Opt(size, opts, hdr, via_record) => {
                 if let Stage::Ad(b) = &mut st {
                     if model.opt.is_none() {
                         // (Code 12 is EDNS padding, written through the typed
                         // `padding()` helper: that many zero octets.)
                         let datas: Vec<(u16, Vec<u8>)> = opts.iter().map(|(c, l)| (*c, if *c == 12 { vec![0u8; *l] } else { (0..*l).map(|i| (i as u8).wrapping_mul(7).wrapping_add(*c as u8)).collect() })).collect();
+                        // The same OPT record as a value (read from a
+                        // message of its own): what a proxy copies over
+                        // with `OptBuilder::clone_from`.
+                        let scratch_msg;
+                        let as_value = if *via_record {
+                            let mut scratch = MessageBuilder::new_vec().additional();
+                            scratch
+                                .opt(|o| {
+                                    o.set_udp_payload_size(*size);
+                                    for h in hdr {
+                                        match h {
+                                            HdrSet::Rcode(r) => o.set_rcode(domain::base::iana::OptRcode::masked_from_int(*r)),
+                                            HdrSet::Version(v) => o.set_version(*v),
+                                            HdrSet::Do(d) => o.set_dnssec_ok(*d),
+                                        }
+                                    }
+                                    for (c, d) in &datas {
+                                        o.push_raw_option(domain::base::iana::OptionCode::from_int(*c), d.len() as u16, |t| t.append_slice(d))?;
+                                    }
+                                    Ok(())
+                                })
+                                .expect("a Vec has room");
+                            sim::stat("probe.opt_record_copied_as_a_value");
+                            scratch_msg = scratch.into_message();
+                            scratch_msg.opt()
+                        } else {
+                            None
+                        };
                         match b.opt(|o| {
+                            if let Some(rec) = &as_value {
+                                o.clone_from(rec)?;
+                                // (The low four bits of the rcode live in
+                                // the header.)
+                                for h in hdr {
+                                    if let HdrSet::Rcode(r) = h {
+                                        o.set_rcode(domain::base::iana::OptRcode::masked_from_int(*r));
+                                    }
+                                }
+                                return Ok(());
+                            }
                             o.set_udp_payload_size(*size);
                             for h in hdr {
                                 match h {
@@ -820,7 +906,7 @@ fn execute<T: Composer>(pool: &[String], ops: &[Op], ctl: &SinkCtl, stream: bool
 fn gen_ops(pool: &[String], size_class: u64) -> Vec<Op> {
     let n = 3 + sim::draw("ops.n", 22) as usize;
     let mut ops = Vec::new();
-    let nn = pool.len();
+    let nn = pool.len() - LADDER;
     // Names restricted to a few per run so that compression kicks in.
     let fav: Vec<usize> = (0..3).map(|_| sim::draw("ops.fav_name", nn as u64) as usize).collect();
     let pick_name = || -> usize {
@@ -846,11 +932,11 @@ fn gen_ops(pool: &[String], size_class: u64) -> Vec<Op> {
                 // (Also to the section the builder is in: a helper that
                 // takes "any builder" converts without looking.)
                 let to = sim::draw("ops.goto_to", 4) as u8;
-                ops.push(Op::Goto(to));
+                ops.push(Op::Goto(to, sim::chance("ops.goto_via_trait", 1, 3)));
                 section = to;
             }
             8 if sim::chance("ops.to_builder", 1, 4) => {
-                ops.push(Op::ToBuilder);
+                ops.push(Op::ToBuilder(sim::chance("ops.to_builder_via_trait", 1, 3)));
                 section = 0;
             }
             3 => ops.push(Op::SetLimit(12 + sim::draw("ops.limit", 700) as usize)),
@@ -873,7 +959,7 @@ fn gen_ops(pool: &[String], size_class: u64) -> Vec<Op> {
                         _ => HdrSet::Do(sim::chance("ops.opt_do", 1, 2)),
                     })
                     .collect();
-                ops.push(Op::Opt(*sim::pick("ops.opt_size", &[1232u16, 512, 4096]), opts, hdr));
+                ops.push(Op::Opt(*sim::pick("ops.opt_size", &[1232u16, 512, 4096]), opts, hdr, sim::chance("ops.opt_via_record", 1, 3)));
             }
             6 => ops.push(Op::Heal(1 + sim::draw("ops.heal", 300) as usize)),
             9 if sim::chance("ops.flags", 1, 2) => ops.push(Op::Flags(sim::draw("ops.flag_bits", 64) as u8)),
@@ -926,6 +1012,20 @@ fn gen_ops(pool: &[String], size_class: u64) -> Vec<Op> {
             }
         }
     }
+    if size_class <= 2 && sim::chance("ops.ladder", 1, 10) {
+        // Names that each extend the one before by a label, in that order,
+        // then the ordinary operations' records.
+        sim::stat("probe.name_behind_a_long_chain_of_pointers");
+        let rungs = 12 + sim::draw("ops.ladder_rungs", (LADDER - 11) as u64) as usize;
+        let tail: Vec<Op> = ops.drain(..).filter(|o| matches!(o, Op::Push(Item::Record(..)) | Op::PushParsed(Item::Record(..)) | Op::Rewind)).collect();
+        ops.push(Op::NextSection);
+        for k in 0..rungs {
+            ops.push(Op::Push(Item::Record(nn + k, 60, RData::A(k as u32))));
+        }
+        ops.push(Op::Push(Item::Record(nn + rungs - 1, 60, RData::Ns(nn + rungs - 1))));
+        ops.extend(tail);
+        return ops;
+    }
     if size_class == 5 && sim::chance("ops.count_wrap", 1, 24) {
         // An unbounded target and more records of one section than a 16-bit
         // count can say: 65535 go in, the next one is refused.
@@ -951,7 +1051,7 @@ fn gen_ops(pool: &[String], size_class: u64) -> Vec<Op> {
             section += 1;
         }
         let (a, b) = *sim::pick("ops.huge_opt", &[(40_000usize, 30_000usize), (65_000, 600), (65_531, 0), (65_532, 0), (30_000, 30_000)]);
-        ops.push(Op::Opt(1232, vec![(65_001, a), (65_002, b)], vec![]));
+        ops.push(Op::Opt(1232, vec![(65_001, a), (65_002, b)], vec![], false));
         ops.push(Op::Push(Item::Record(pick_name(), 60, RData::A(5))));
     }
     if size_class == 4 {
